@@ -68,7 +68,7 @@ func corpusOpener(file string) source.Opener {
 }
 
 const (
-	c14Specials = 40 // pathological + cycles + opener faults
+	c14Specials = 48 // pathological + cycles + opener faults
 )
 
 func (c14) NumCases(tier string, seed int64) int {
@@ -396,6 +396,32 @@ func (p c14) special(c *core.Ctx, k int) {
 			return &errReader{data: hdr("b") + "leaf x { type string; } }", fail: 30}, nil
 		}},
 	}
+	// stacked diamonds: every module of a layer imports both modules of the next one. Linear in the number of modules when each is
+	// visited once, 2^layers when every import path is walked
+	diamonds := func(layers int) map[string]string {
+		mods := map[string]string{"top": hdr("top") + "import l0a { prefix a; } import l0b { prefix b; } leaf x { type a:t; } }"}
+		for i := 0; i < layers; i++ {
+			for _, side := range []string{"a", "b"} {
+				body := fmt.Sprintf("typedef t { type string; } identity id%d%s; ", i, side)
+				if i+1 < layers {
+					body = fmt.Sprintf("import l%da { prefix a; } import l%db { prefix b; } ", i+1, i+1) + body
+				}
+				name := fmt.Sprintf("l%d%s", i, side)
+				mods[name] = hdr(name) + body + "}"
+			}
+		}
+		return mods
+	}
+	specials = append(specials,
+		sp{name: "import-diamonds-12", byName: "top", mods: diamonds(12)},
+		sp{name: "import-diamonds-40", byName: "top", mods: diamonds(40)},
+		sp{name: "belongs-to-in-module", text: "module main { namespace \"n\"; prefix m; belongs-to y { prefix p; } leaf l { type p:foo; } }"},
+		sp{name: "include-mutual", byName: "a", mods: map[string]string{"a": hdr("a") + "include s1; include s2; }",
+			"s1": "submodule s1 { belongs-to a { prefix a; } include s2; }", "s2": "submodule s2 { belongs-to a { prefix a; } include s1; }"}},
+		sp{name: "include-mutual-with-data", byName: "a", mods: map[string]string{"a": hdr("a") + "include s1; }",
+			"s1": "submodule s1 { belongs-to a { prefix a; } include s2; leaf p { type string; } }", "s2": "submodule s2 { belongs-to a { prefix a; } include s1; leaf q { type string; } }"}},
+		sp{name: "include-self", byName: "a", mods: map[string]string{"a": hdr("a") + "include s1; }", "s1": "submodule s1 { belongs-to a { prefix a; } include s1; }"}},
+	)
 	if k >= len(specials) {
 		return
 	}
